@@ -13,7 +13,7 @@ SUMMARIZE = {'beancount.ops.summarize.open_opt': 2, 'beancount.ops.summarize.clo
 
 @contract(f'{QE}:BeanTable.update')
 class table_update:
-    props = ['C13', 'C09']
+    props = ['C13', 'C09', 'C08']      # C08: a nested SELECT re-qualifies its own table; absent qualifiers are None, not inherited
     params = {'self': TABLE, 'kwargs': KwArgs(dict(open=Opt(DateS()), close=CLOSE, clear=Union(NoneS(), Const(True))))}
     modifies = []                     # the receiver (the connection's table) is never written
     native = False
